@@ -119,10 +119,25 @@ class Sandwich:
             self.error = "too many rounds"
             return False
         if coalesce_with is not None:
-            # Finished (still in cout) + application data in one TCP segment
-            self.client.write(coalesce_with) if coalesce_with else None
+            # Finished (still in cout) + application data in one TCP segment; a list means
+            # several TLS records (one SSL write each) in that same segment
+            pieces = coalesce_with if isinstance(coalesce_with, (list, tuple)) else [coalesce_with]
+            for piece in pieces:
+                if piece:
+                    self.client.write(piece)
         self.flush()
         return True
+
+    def client_send_records(self, pieces):
+        """Several TLS records (one SSL write each) delivered to the server in ONE TCP read."""
+        for piece in pieces:
+            if piece:
+                try:
+                    self.client.write(piece)
+                except ssl.SSLError as e:
+                    self.client_error = repr(e)
+                    return
+        self.flush()
 
     def client_send(self, data: bytes):
         if data:
